@@ -27,7 +27,7 @@ ASSUMPTIONS = ["cases in which either run reports a bus voltage below 0.5 or abo
                "voltage-dependent loads are switched off when a pypower algorithm (gs, fdbx, fdxb) takes part",
                "per-generator q is compared as sum per node; solver accuracy 1e-8 MVA (tolerance_mva = 1e-8/sn_mva), comparison 1e-4 MVA, currents and loadings with the power tolerance expressed at the lowest voltage level / smallest rating; gs max_iteration 20000"]
 
-PROFILE = netgen.profile(oos=0.04, open_prob=0.2, dcline=False, second_slack=False, nb_max=9, max_per_bus=2, slack_any_level=True,
+PROFILE = netgen.profile(oos=0.04, open_prob=0.2, dcline=False, second_slack=False, nb_max=9, max_per_bus=2, slack_any_level=True, bus_order=True,
                          extra_branches=(0, 2), trafo_parallel_pair=True,
                          bus_kinds={"load": 6, "sgen": 3, "gen": 2, "storage": 1, "shunt": 1, "ward": 1, "xward": 0, "motor": 0,
                                     "asymmetric_load": 0, "asymmetric_sgen": 0})
